@@ -29,6 +29,7 @@ RULE = (
     "covariance by explicit (N-1)/N sum_k (x_k-mean)(x_k-mean)^T loops. End-to-end: catalogs with P in [2,5] patches are measured, then "
     "re-created without patch k and measured again; redshift histograms likewise. Non-trivial: >=3 patches and patch k has a non-zero "
     "off-diagonal count in its row or column and per-patch totals pairwise distinct (so a permuted sample order is visible)."
+    ' Extensions: containers also as restored from HDF5, unpickled, fully sliced or deep-copied; 127-300 patches for pair-count containers (expanded from a drawn seed) and for histograms.'
 )
 ASSUMPTIONS = [
     "entries are dyadic rationals so totals/normalisations are exact in float64; estimator tolerance 64 ulp of the largest term over |rr|",
